@@ -153,7 +153,12 @@ func VerifH_C04_library_walk_edge_arguments() {
 	}
 	args := make([]rt.Value, nargs)
 	for i := range args {
-		args[i] = vhEdgeValue("a", verifChoose("kind", nkinds))
+		if nargs == 2 {
+			// pairs: nil, pool integer, one-byte string, empty table for each position
+			args[i] = vhEdgeValue("a", [4]int{0, 1, 3, 5}[verifChoose("kind2", 4)])
+		} else {
+			args[i] = vhEdgeValue("a", verifChoose("kind", nkinds))
+		}
 	}
 	kind := vhCrashKind(func() {
 		term := rt.NewTerminationWith(nil, 0, true)
